@@ -310,12 +310,12 @@ Definition model_geo_merge_pinned (szs : list Z) (d : Z) (es : list entry) : res
         end
       else RErr E_ASSERT
   end.
-(* Geometry.sort: argsort of the global starts, back to local *)
+(* Geometry.sort: np.lexsort((global stop, global start)), back to local *)
 Definition model_geo_sort (szs : list Z) (es : list entry) : res :=
   match check_bounds szs es with
   | Some c => RErr c
   | None =>
-      match to_local_interval szs (sort_by (fun e => (e_start e, 0, 0)) (globalise szs es)) with
+      match to_local_interval szs (sort_by (fun e => (e_start e, e_stop e, 0)) (globalise szs es)) with
       | Some loc => RIvs (map triple loc)
       | None => RErr E_ASSERT
       end
@@ -370,6 +370,40 @@ Definition model_coords (szs : list Z) : res :=
           (map (to_local szs) (arange (total szs)))
           (map (fun c => match from_local szs c (size_of szs c) with None => true | Some _ => false end)
                (arange (len szs))).
+
+(* ---------- the arithmetic kernels by name ----------
+   Bridge/C10.v proves (a) that the definitions regenerated from the source (Gen/C10.v) equal these, and (b) that
+   the model functions above are these helpers put together (link lemmas, by computation). *)
+Definition m_from_local_reject (size p : Z) : bool := size <=? p.
+Definition m_from_local_value (o p : Z) : Z := o + p.
+Definition m_to_local_idx (ss : Z) : Z := ss - 1.          (* ss = searchsorted(offsets, g, side="right") *)
+Definition m_to_local_pos (o g : Z) : Z := g - o.
+(* refusal code of one entry in start_ends_from_intervals: 5 Exception, 1 failed assert, 0 accepted *)
+Definition m_entry_check (neg : bool) (size s t : Z) : Z :=
+  if size <=? s then E_BOUNDS else if neg && (s <? 0) then E_BOUNDS else if negb (t <=? size) then E_ASSERT else 0.
+Definition m_global (o x : Z) : Z := x + o.
+Definition m_stop_fits (size t : Z) : bool := t <=? size.
+Definition m_clip_start (s : Z) : Z := Z.max 0 s.
+Definition m_clip_stop (size t : Z) : Z := Z.min size t.
+Definition m_geo_clip_start (size s : Z) : Z := Z.min (Z.max 0 s) size.
+Definition m_geo_clip_stop (size t : Z) : Z := Z.max (Z.min size t) 0.
+Definition m_extend_start (fwd : bool) (s t n : Z) : Z := if fwd then s else Z.max (t - n) 0.
+Definition m_extend_stop (fwd : bool) (s t n size : Z) : Z := if fwd then Z.min (s + n) size else t.
+Definition m_flank_l (f : Z) : Z := f.
+Definition m_flank_r (f : Z) : Z := f + 1.
+Definition m_wsize_l (w : Z) : Z := w / 2.
+Definition m_wsize_r (w : Z) : Z := w / 2 + w mod 2.
+Definition m_win_start (p l : Z) : Z := p - l.
+Definition m_win_stop (p r : Z) : Z := p + r.
+Definition m_loc_unstranded (is_start : bool) (s t : Z) : Z := if is_start then s else t - 1.
+Definition m_loc_stranded (is_start fwd : bool) (s t : Z) : Z :=
+  if fwd then (if is_start then s else t - 1) else (if is_start then t - 1 else s).
+Definition m_loc_center (s t : Z) : Z := (s + t) / 2.
+Definition m_shift (o c d : Z) : Z := o + (d + 1) * c.     (* = gap_shift *)
+(* Geometry.clip (and arithmetics.clip) clamp both ends into [0, size] *)
+Definition model_geo_clip (szs : list Z) (es : list entry) : list entry :=
+  map (fun e => set_se e (m_geo_clip_start (size_of szs (e_chr e)) (e_start e))
+                         (m_geo_clip_stop (size_of szs (e_chr e)) (e_stop e))) es.
 
 (* The variants the checks run against.  When a repair is committed to /repo, switch the line:
      fix-1 (GenomicIntervalsFull.merged)   : model_merged    := model_merged_fixed
